@@ -21,7 +21,7 @@ PROPS = {
         "rule": "GET with a Range header on objects of size 0..6 (quick) / 0..24 (thorough), 100 and 4097, on all six backend "
                 "instances; headers: all first/last/suffix in -1..n+2 in the three forms, int64/uint32 boundary values in every "
                 "position, whitespace/sign/unit/multi-range variants, seeded token soup. distinct_nontrivial = distinct "
-                "(backend, header, size) whose header reaches the arithmetic (parses as a single range). Malformed headers whose junk after 'bytes=' consists of the unit's own letters or '=' (bytes==1-2, bytes=bytes=1-2, bytes=e1-2 ...).",
+                "(backend, header, size) whose header reaches the arithmetic (parses as a single range). Malformed headers whose junk after 'bytes=' consists of the unit's own letters or '=' (bytes==1-2, bytes=bytes=1-2, bytes=e1-2 ...). On the real-directory fs backends six ranged reads are each the first read after the metadata records were wiped and the store reopened.",
         "explanation": "Theorems: for every header string and every object below 2^63 bytes the modelled handler answers exactly "
                        "what the wrap-free spec says and never slices out of bounds. Tie: every run the Go handlers built from "
                        "/repo and the extracted model are evaluated on the same (header, object) cases and status, S3 code, "
@@ -52,7 +52,7 @@ PROPS = {
                 "get, head, delete, multi-delete, copy incl. self-copy and cross-bucket copy, head bucket) on the memory backend with and "
                 "without auto-bucket, each followed by a probe (list buckets, list objects, get every key); plus seeded random sequences "
                 "of 40 (quick) / 60 (thorough) operations over 2 buckets x 4 keys x 3 bodies on all six backend instances with and "
-                "without auto-bucket. distinct_nontrivial = distinct sequences executed. The two buckets are named bkt and bkt2 (one name begins with the other); on the fs backends keys below an object and keys that are directories of other keys are read, deleted and copied from (never written: NoSuchKey everywhere); every fourth memory history runs the backend with versioning support switched off.",
+                "without auto-bucket. distinct_nontrivial = distinct sequences executed. The two buckets are named bkt and bkt2 (one name begins with the other); on the fs backends keys below an object and keys that are directories of other keys are read, deleted and copied from (never written: NoSuchKey everywhere); every fourth memory history runs the backend with versioning support switched off. Every third random history ends with c02Nesting (outside the model): an upload below an existing object, or onto a name that holds other keys, may be refused or stored, but the object acknowledged first keeps reading as written.",
         "explanation": "Theorems: the modelled handlers satisfy the S3 laws for every reachable state and every operation sequence "
                        "(read-your-writes, frame, idempotent delete, bucket lifecycle, copy). Tie: every response of every sequence "
                        "(status, S3 code, body, ETag, bucket list, key list) produced by the Go handlers built from /repo is compared "
@@ -171,7 +171,7 @@ PROPS = {
                 "bases (first / second base, configured with stray dots and a port); fall-backs (localhost, the base itself, a "
                 "multi-label prefix, an unrelated host); path-style with an extra leading and with a trailing slash. A recording "
                 "backend wrapper reports the bucket/key each handler addressed. distinct_nontrivial = distinct (variant, method, "
-                "sub-resource, bucket, key).",
+                "sub-resource, bucket, key). Keys named like their bucket (bkt, bkt/k, bkt.s3.example.com/k) are in the pool.",
         "explanation": "Theorems: the routed (bucket, object) of a host-style request equals that of the path-style request for every "
                        "bucket label, key path and base list; unmatched hosts fall back unchanged; extra slashes do not change the "
                        "address. Tie: recorded backend addresses of the Go handlers vs the extracted router; spec oracle: canonical "
@@ -188,7 +188,7 @@ PROPS = {
                 "resolves to), walks for max-keys 1..n+1 over four prefix/delimiter combinations following (NextKeyMarker, "
                 "NextVersionIdMarker) checked by a model-independent oracle (bound, every entry once, concatenation = unpaginated) and "
                 "page by page against the model, and single pages from marker pairs naming existing versions. distinct_nontrivial = "
-                "distinct walks.",
+                "distinct walks. Every fifth history opens with deletes made while versioning is suspended over enabled-era versions; once versioning has ever been enabled every entry of the full listing is read back by the id it is listed with.",
         "explanation": "Theorems over the version-listing model (exactness w.r.t. the stored versions, one IsLatest per key = the "
                        "current version, paging). Tie: every page from the Go handlers vs the extracted model, version ids through "
                        "the bijection, plus the walk oracle on the implementation's pages.",
@@ -206,7 +206,7 @@ PROPS = {
                 "same digest x length matrix, bad part numbers and failing readers for upload-part; after each request a snapshot "
                 "(GET+HEAD of the previous object incl. metadata, GET of the absent key, bucket listing, ListParts of the pending "
                 "upload) is compared with the model, whose state is unchanged by a rejected request. distinct_nontrivial = distinct "
-                "(backend, integrity, target, digest kind, length delta / failure point). Uploads the backend itself refuses (a path segment longer than a file name on real directories) are rejected uploads too: listings with and without delimiter and the other object are compared before and after, and the refused key must afterwards read as NoSuchKey and delete quietly.",
+                "(backend, integrity, target, digest kind, length delta / failure point). Uploads the backend itself refuses (a path segment longer than a file name on real directories) are rejected uploads too: listings with and without delimiter and the other object are compared before and after, and the refused key must afterwards read as NoSuchKey and delete quietly. Key-limit cases in multi-byte characters: 512 / 513 two-byte, 342 three-byte, 257 four-byte characters (the limit counts bytes).",
         "explanation": "Theorems: the modelled upload path accepts iff the digest (when checked) matches the bytes received and the "
                        "declared length equals the body length; every rejection — for every reader failure point k — returns the state "
                        "unchanged. Tie: responses and before/after snapshots of the Go handlers on all six backends vs the extracted "
@@ -226,7 +226,7 @@ PROPS = {
                 "backends, every file on disk classified by bucket root) is compared with the snapshot before by the frame oracle: "
                 "only entries of the addressed (bucket, key) may change, a refused operation may change nothing, no file may appear "
                 "outside the addressed bucket's roots. Memory and bolt are additionally stepped against the model. "
-                "distinct_nontrivial = distinct (backend, bucket, key, status). Buckets bkc2 and bkc.x (names beginning with the name of bucket bkc) hold objects while the empty bucket bkc is created and deleted; the snapshot also records the common prefixes of a delimiter listing and, on real directories, the directories on disk; copies are also attempted from source buckets . .. buckets metadata _meta ./<bucket> spelling the path to a stored object (must be refused); every history ends with a force-delete (x-minio-force-delete) of a bucket that holds keys named like other buckets, under the frame oracle only.",
+                "distinct_nontrivial = distinct (backend, bucket, key, status). Buckets bkc2 and bkc.x (names beginning with the name of bucket bkc) hold objects while the empty bucket bkc is created and deleted; the snapshot also records the common prefixes of a delimiter listing and, on real directories, the directories on disk; copies are also attempted from source buckets . .. buckets metadata _meta ./<bucket> spelling the path to a stored object (must be refused); every history ends with a force-delete (x-minio-force-delete) of a bucket that holds keys named like other buckets, under the frame oracle only. On memory and bolt the creation date is part of a bucket's list entry in the snapshot.",
         "explanation": "Theorems: frame laws of the model (an operation addressed to (bucket, key) changes no other (bucket, key); keys "
                        "that differ as byte strings are different objects; an unknown bucket name is never served). Tie: model "
                        "comparison on the opaque-key backends; the model-free frame oracle (extracted from Coq) on the observations "
@@ -250,7 +250,7 @@ PROPS = {
                 "/ copy over existing, to a new key / multi-delete / create-bucket, a wrapping file system kills the request immediately "
                 "before each state-changing call and half way through each file write; the calls logged must equal the model's sequence "
                 "and a new backend on what is left must answer exactly as the Coq crash model predicts for that call index. "
-                "distinct_nontrivial = distinct (backend, history, restart) + distinct crash points. After every crash point the delimiter listing of the next process is compared with its plain listing: a common prefix without a key is a violation (known finding D34 where it is the directory of the killed upload).",
+                "distinct_nontrivial = distinct (backend, history, restart) + distinct crash points. After every crash point the delimiter listing of the next process is compared with its plain listing: a common prefix without a key is a violation (known finding D34 where it is the directory of the killed upload). The crash points also carry the directory model's view (coq/Model/CrashDirs.v): the directory-changing calls logged must be the model's, and the common prefixes without a key that the next process lists must be the set the model predicts for that call index.",
         "explanation": "Theorems: every observable of the object API is a function of the persistent state alone (clean restart); for the fs "
                        "backends' call sequences: an uninterrupted PutObject is the abstract put, at EVERY crash point every other key answers "
                        "as before, DeleteObject is crash-atomic, every crash state of PutObject is one of a listed set, the invariant is kept "
@@ -272,7 +272,7 @@ PROPS = {
                 "metadata sets (none; Content-Type + x-amz-meta; Content-Type + Content-Encoding + Content-Disposition + a 900-byte "
                 "value), uploaded by PUT (with and without Content-MD5), browser-form POST, copy, and Backend.PutObject; each followed "
                 "by GET and HEAD over HTTP (and through the Backend API) and a listing of the key; later operations on other keys, "
-                "then the same reads again. distinct_nontrivial = distinct (backend, integrity, upload path, size, key). Copies are made inside the bucket and, every third one, from a second bucket that holds an object of the destination's name (which must stay what it is).",
+                "then the same reads again. distinct_nontrivial = distinct (backend, integrity, upload path, size, key). Copies are made inside the bucket and, every third one, from a second bucket that holds an object of the destination's name (which must stay what it is). On the key-value backends the twin-key groups include keys that differ by leading or doubled slashes (lead, /lead, //lead).",
         "explanation": "Theorems: read-your-writes with the exact body and the metadata sent (C01_roundtrip), HEAD/GET agreement, "
                        "stability under operations on other keys (frame), listing entry = current version. Tie: the responses of the Go "
                        "handlers and of the Go Backend API vs the extracted model, with length and MD5 recomputed by the checker.",
@@ -291,7 +291,7 @@ PROPS = {
                 "missing or duplicate parts; aws-chunked incl. truncated with hostile decoded lengths) x hostile headers (Range, "
                 "Content-MD5, X-Amz-Copy-Source, Content-Length, conditionals, force-delete, oversized metadata). Every request runs "
                 "under recover() and a 5 s deadline; every 25 requests a canary sequence on a fresh bucket and on the fuzzed bucket is "
-                "compared with the model. distinct_nontrivial = distinct (backend, config, status, code, method, header count). The corpus and the fuzz pool hold keys of 200-210 bytes in 2-, 3- and 4-byte characters (written, read, listed, deleted).",
+                "compared with the model. distinct_nontrivial = distinct (backend, config, status, code, method, header count). The corpus and the fuzz pool hold keys of 200-210 bytes in 2-, 3- and 4-byte characters (written, read, listed, deleted). The versioned store holds delete markers between live keys of a group, last in a group and as a group of their own; the corpus pages object listings over them (max-keys 1..6 x 11 prefix / delimiter / marker combinations).",
         "explanation": "Theorems: no reachable state makes a modelled handler panic (object API, range, uploader complete/list with any "
                        "part number or marker, version listing), an error leaves the state unchanged, and the status of an error equals "
                        "the table entry of its code. Tie: model-free response oracle (extracted from Coq) on every response of the Go "
